@@ -703,6 +703,34 @@ func runRounds(c *kit.Ctx, r *kit.Rand, nOps int) {
 			pools[i].Budgets = genRoundBudgets(r)
 		}
 	}
+	if r.Chance(1, 3) {
+		// a pool whose percentage budget is at a round-up boundary, plus nodes that must not be in
+		// the percentage base (registered and Ready but not initialized, instance terminating)
+		c.Count("R:world=percentage-boundary")
+		b := kit.Pick(r, [][2]int{{50, 2}, {50, 4}, {25, 4}, {20, 5}, {10, 10}, {34, 5}, {20, 10}})
+		pools = []jPool{{ID: 1, Name: poolName(1), Budgets: []jBudget{{Nodes: fmt.Sprintf("%d%%", b[0])}}}, {ID: 9, Name: poolName(9)}}
+		nodes, pinned = nil, map[int]bool{}
+		for i := 1; i <= b[1]; i++ {
+			n := jNode{ID: i, Pool: 1, Managed: true, HasNode: true, Init: true, Ready: "True"}
+			switch m0 {
+			case mDrift:
+				n.Drifted = true
+			case mMulti, mSingle:
+				n.Pods = 1
+			}
+			nodes = append(nodes, n)
+		}
+		for j := r.Range(1, 2); j > 0; j-- {
+			x := jNode{ID: 100 + j, Pool: 1, Managed: true, HasNode: true, Init: false, Ready: "True"}
+			if r.Chance(1, 4) {
+				x.Init, x.Term = true, true
+			}
+			nodes = append(nodes, x)
+		}
+		for k := 0; k < 2; k++ {
+			nodes = append(nodes, jNode{ID: 900 + k, Pool: 9, Managed: true, HasNode: true, Init: true, Ready: "True", Anchor: true})
+		}
+	}
 	// the clock starts shortly before 11:00 so that window edges are crossed by clock events
 	start := scheduleAt.Add(-time.Duration(r.Range(0, 120)) * time.Second)
 	w := newWorld(start.UnixNano())
